@@ -221,7 +221,9 @@ def enum_files(rec: Dict[str, Any]) -> Dict[str, Any]:
     for i in range(rec["n"]):
         doc = {"none": "", "good": '"""Fine text."""\n', "warn": '"""See L{nonexistent_thing_xyz}."""\n',
                "fatal": '"""Bad } brace."""\n'}[rec["doc"][i]]
-        body = doc + "def f():\n    pass\n"
+        qn = ["pk", "pk.ma", "pk.mb", "pk.mc"]
+        j = (rec.get("imp") or [0] * rec["n"])[i]
+        body = doc + ("" if not j else "import pk\n" if j == 1 else f"from {qn[j - 1]} import f as imported\n") + "def f():\n    pass\n"
         if rec["fault"][i] == "syntax":
             body = "def broken(:\n    pass\n"
         elif rec["fault"][i] == "nullbyte":
@@ -408,7 +410,7 @@ def run(ctx: Ctx) -> int:
         spec = [[e["k"], e["m"]] for e in rec["events"]]
         if real != spec:
             mism += 1
-            ctx.drift_note({"cfg": {k: rec[k] for k in ("n", "fault", "doc", "W")}, "spec": spec, "real": real})
+            ctx.drift_note({"cfg": {k: rec[k] for k in ("n", "fault", "doc", "W", "imp")}, "spec": spec, "real": real})
     ctx.extra["enum_behaviours"] = len(recs)
     ctx.extra["enum_mismatches"] = mism
     ctx.exhaustive = not ctx.quick
